@@ -4,6 +4,7 @@ import z3
 from pyvc.contract import Contract
 from pyvc.runner import ContractTask
 from pyvc.values import *   # noqa
+from pyvc.values import J, OJ
 from .transit_lib import make_transit_registry, BodyLemma, T_PY, TRUSTED_LIB, DEFERRED
 from . import c06
 from . import c20 as _c20
@@ -29,6 +30,9 @@ NEG_START_FIELDS = {**c06.F_STATE, **c06.F_BUF, **c06.F_NEG, "transport": "obj[T
 
 # what __init__ establishes and add_connection_hints (C20) keeps: the peer's hints are parsed hint objects, the side is 16 hex digits
 DH = "nt[DirectTCPV1Hint]"
+# what _get_direct_hints establishes and keeps (with __init__: _listener = None)
+LISTEN_INV = ("implies(self._listener is not None, own_direct_ok(self._my_direct_hints)) and "
+              "implies(self._no_listen or self._tor is not None, self._listener is None)")
 CLASS_INV = "all_valid(self._their_direct_hints) and all_relays_valid(self._our_relay_hints) and is_hex16(self._side)"
 STABLE_COMMON = ("is_sender", "_side", "_tor", "_reactor", "_no_listen", "_transit_relays")     # stored by __init__ only
 
@@ -498,6 +502,39 @@ CONTRACTS = [
                   "listen() Deferred whose only callback returns self._my_direct_hints (both stated above on the trace): this is the "
                   "deferred-result contract get_connection_hints uses at its yield.  _build_listener by contract; "
                   "InboundConnectionFactory.__init__ inlined"),
+    Contract(T + "Common.get_connection_hints", props=[PROP, "C20"], params={},
+             self_fields={"_no_listen": "bool", "_tor": "opt[obj[Tor]]", "_reactor": "obj[Reactor]",
+                          "_listener": "opt[obj[ServerEndpoint]]", "_my_direct_hints": f"seq[{DH}]",
+                          "_listener_d": f"opt[{DEFERRED}]", "_listener_f": "opt[obj[InboundConnectionFactory]]",
+                          "_transit_relays": "seq[nt[RelayV1Hint]]"},
+             requires=[LISTEN_INV],
+             modifies=["_listener", "_my_direct_hints", "_listener_d", "_listener_f"], returns="seq[json]",
+             ensures=[("one-dict-per-direct-hint-then-one-per-relay",
+                       "len(result) == len(self._my_direct_hints) + len(self._transit_relays)"),
+                      ("no-direct-hints-unless-listening",
+                       "implies(self._no_listen or self._tor is not None, len(result) == len(self._transit_relays))"),
+                      ("published-direct-hints-are-wellformed-and-faithful",
+                       "forall(lambda j: implies(0 <= j and j < len(self._my_direct_hints), "
+                       "wellformed_tcp(result[j]) and hint_matches(self._my_direct_hints[j], result[j])), 'int')")],
+             internal_ensures=[("direct-hints-asked-once", "n_calls('_get_direct_hints') == 1 and n_events('yield') == 1")],
+             loops={1: {"header": "for relay in self._transit_relays", "retype": {"hints": "seq[json]"},
+                        "invariant": ["len(hints) == len(at_entry(hints)) + _i", "prefix_of(at_entry(hints), hints)",
+                                      "forall(lambda j: implies(0 <= j and j < len(at_entry(hints)), hints[j] == at_entry(hints)[j]), 'int')"]}},
+             note="@inlineCallbacks: the Deferred of _get_direct_hints (by contract) fires with self._my_direct_hints (its "
+                  "deferred-result contract, see _get_direct_hints).  wellformed_tcp / hint_matches are C20's own predicates: the "
+                  "dict is what parse_tcp_v1_hint accepts, and the hint object carries exactly the dict's fields.  relay_dict_of(d, r): "
+                  "d == {'type': 'relay-v1', 'hints': [one direct-tcp-v1 dict per sub-hint of r, same hostname/port/priority, same "
+                  "order]}.  The two append loops (direct hints, sub-hints) are read as the comprehensions they spell out"),
+    Contract("lemma:published_direct_hint_parses_back", props=[PROP, "C20"], source_module="wormhole/_hints.py",
+             params={"d": "json", "h": DH},
+             source_text="""
+             def published_direct_hint_parses_back(d, h):
+                 return parse_hint(d)
+             """,
+             requires=["wellformed_tcp(d)", "hint_matches(h, d)", "own_direct_ok([h])"],
+             ensures=[("parse-of-a-published-dict-is-the-hint-object", "result == h")],
+             note="encode/parse round trip for the direct hints of get_connection_hints: its postcondition gives wellformed_tcp and "
+                  "hint_matches for every published dict; parse_hint by its C20 contract (imported, not restated)"),
 ]
 
 
@@ -538,7 +575,7 @@ def regf(exclude=()):
     sf["run_callback"] = run_callback
     _c20.install_hint_support(reg)
     for c in _c20.CONTRACTS:
-        if c.target.endswith(":endpoint_from_hint_obj") or c.target.endswith(":describe_hint_obj"):
+        if c.target.endswith((":endpoint_from_hint_obj", ":describe_hint_obj", ":parse_hint", ":parse_tcp_v1_hint")):
             reg.contracts[c.target] = c          # proved in C20, used here
     sf["a_protocol"] = lambda it: VObj("ProtocolB")       # what the endpoint's Deferred fires with (a collaborator here)
 
@@ -684,6 +721,17 @@ def transit_yield_model(it, node, fr):
             it.ctx.event("fired", v, w)
             return w
     for e in tr:
+        if e[0] == "callret" and e[1][0].endswith("Common._get_direct_hints") and same(e[1][1]):
+            # deferred-result contract of _get_direct_hints (its clauses already-fired-when-nothing-to-start /
+            # once-listening-it-fires-with-the-hints..): the value is self._my_direct_hints as stored when it fires
+            it.ctx.event("yield", "direct-hints")
+            _d.havoc_unstable(it, fr)
+            it.ctx.assume(it.truth(it.eval_spec(LISTEN_INV, sfr)))
+            it.ctx.assume(it.truth(it.eval_spec(
+                "own_direct_ok(self._my_direct_hints) and "
+                "implies(self._no_listen or self._tor is not None, len(self._my_direct_hints) == 0)", sfr)))
+            return sfr.selfobj.fields["_my_direct_hints"]
+    for e in tr:
         if e[0] == "new-deferred" and same(e[1][0]):
             waiting = it.force(sfr.selfobj.fields["_waiting_for_transit_key"])
             it.ctx.prove(z3.Contains(waiting.z, z3.Unit(v.z)), "connect.yielded-deferred-is-a-registered-key-waiter",
@@ -716,7 +764,39 @@ def regf_connect():
         return VList(out)
 
     reg.spec_funcs["suspension_order"] = suspension_order
+    reg.spec_funcs["relay_dict_of"] = relay_dict_of
     return reg
+
+
+def relay_dict_of(it, d, r):
+    """d == {"type": "relay-v1", "hints": [{"type": "direct-tcp-v1", "priority": h.priority, "hostname": h.hostname,
+    "port": h.port} for h in r.hints]} (stated field by field; the sub-dicts in the order of r.hints)"""
+    dz = to_json(it.force(d))
+    r = it.force(r)
+    subs = it.force(r.items[0])
+
+    def fld(x, name):
+        return OJ.v(z3.Select(J.d(x), z3.StringVal(name)))
+
+    def has(x, name):
+        return OJ.is_present(z3.Select(J.d(x), z3.StringVal(name)))
+
+    lst = fld(dz, "hints")
+    m = z3.Int("m!rd")
+    sub = J.l(lst)[m]
+    h = from_z3(subs.z[m], subs.elem)
+
+    def fields_eq(v):
+        host, port, prio = [to_json(x) for x in v.items]
+        return z3.And(fld(sub, "hostname") == host, fld(sub, "port") == port, fld(sub, "priority") == prio)
+
+    per = z3.Or([z3.And(c, fields_eq(x)) for c, x in h.alts]) if isinstance(h, VUnion) else fields_eq(h)
+    return VBool(z3.And(
+        J.is_jdict(dz), has(dz, "type"), fld(dz, "type") == J.jstr(z3.StringVal("relay-v1")), has(dz, "hints"), J.is_jlist(lst),
+        z3.Length(J.l(lst)) == z3.Length(subs.z),
+        z3.ForAll([m], z3.Implies(z3.And(0 <= m, m < z3.Length(subs.z)), z3.And(
+            J.is_jdict(sub), has(sub, "type"), fld(sub, "type") == J.jstr(z3.StringVal("direct-tcp-v1")),
+            has(sub, "hostname"), has(sub, "port"), has(sub, "priority"), per)))))
 
 
 def regf_opaque_hs():
@@ -732,7 +812,7 @@ def regf_inline_sm():
 
 
 for _c in CONTRACTS:
-    if _c.target == T + "Common._connect":
+    if _c.target in (T + "Common._connect", T + "Common.get_connection_hints"):
         _c.qf_feasibility = True      # quantified invariants: branch pruning without them (keeps more paths, never fewer)
 
 
@@ -747,13 +827,17 @@ def regf_inbound():
 def tasks():
     special = {T + "InboundConnectionFactory.connectionWasMade": regf_inbound, T + "Connection._dataReceived": regf_opaque_hs, T + "Connection.startNegotiation": regf_inline_sm,
                T + "there_can_be_only_one": lambda: regf(exclude=(T + "_ThereCanBeOnlyOne.__init__",)),
-               T + "Common.connect": regf_connect}
+               T + "Common.connect": regf_connect, T + "Common.get_connection_hints": regf_connect}
     return [ContractTask(c, special.get(c.target, regf)) for c in CONTRACTS]
 
 
 TRUSTED = TRUSTED_LIB + ["the hint / endpoint / sorted() / task.deferLater / endpoint.connect models of props/c20.py (listed under C20's "
                          "TRUSTED), used by Common._connect and _start_connector; time.time() returns a real; DelayedCall.active() "
-                         "answers either way, DelayedCall.cancel() is a recorded event"]
+                         "answers either way, DelayedCall.cancel() is a recorded event",
+                         "listening (install_listener_models): allocate_tcp_port() returns an int in 1..65535 (the OS's answer to bind(0)); "
+                         "ipaddrs.find_addresses() returns some list of str; endpoints.serverFromString(reactor, description) returns an "
+                         "endpoint object; its listen(factory) returns a new Deferred and calls nothing back synchronously; "
+                         "defer.succeed(x) is a new, already fired Deferred carrying x"]
 ASSUMPTIONS = [
     "HKDF idealisation (injective in the key for a fixed info) and unhexlify(hexlify(x)) == x: used by "
     "lemma:handshakes_bind_key_and_role and lemma:other_key_is_rejected only; that a party without the transit key cannot "
@@ -778,7 +862,25 @@ ASSUMPTIONS = [
     "not under contract",
     "the callbacks registered on Deferreds (_not_forever's _done, _start_connector's lambda) are run as real code on a probe "
     "value by the clause that describes them; that Twisted calls them with the Deferred's result is the Deferred contract",
-    "not under contract: Common.connect (the inlineCallbacks wrapper: yields _get_transit_key() then _connect() and returns the "
-    "winner), Common._get_direct_hints' _stop_listening closure (stops the listener when the listener's Deferred fires), "
-    "InboundConnectionFactory._proto_failed, Connection.__init__ as a function of its own (inlined in buildProtocol)",
+    "Common.connect / get_connection_hints (@inlineCallbacks, transit_yield_model): a generator is resumed once per fired Deferred with "
+    "its result or the failure is raised at the yield; defer.succeed(x) resumes at once with x; at a real suspension every field "
+    "of self except is_sender/_side/_tor/_reactor/_no_listen/_transit_relays (stored by __init__ only; not checked syntactically "
+    "here) is havocked and the class invariant is assumed again: CLASS_INV (peer hints parsed - C20's add_connection_hints keeps "
+    "it; __init__ is not under contract) resp. LISTEN_INV + own_direct_ok(_my_direct_hints) (postconditions of _get_direct_hints)",
+    "deferred-result contracts: a key waiter (must be in _waiting_for_transit_key: proved) is fired by set_transit_key with the key it "
+    "just stored, and that key is non-empty (callers pass derive_key(.., SecretBox.KEY_SIZE); set_transit_key itself is not under "
+    "contract); the Deferred of _connect fires with some Connection (the race's winner) or fails (exception class RaceFailure "
+    "stands for whatever the first failure was); the Deferred of _get_direct_hints fires with self._my_direct_hints (justified "
+    "by _get_direct_hints' clauses already-fired-when-nothing-to-start / once-listening-it-fires-with-the-hints..)",
+    "Common.connect: `with self._timing.add(..)` is dropped syntax (DebugTiming's context manager does not swallow exceptions); "
+    "this version of connect() sets no description - the winner describes itself (Connection.describe)",
+    "_transit_key is typed bytes, b'' standing for the initial None (both falsy), as in the older contracts",
+    "get_connection_hints: the two append loops (one dict per direct hint, one per relay sub-hint) are read as the comprehension they "
+    "spell out (interp.desugar_simple_for / comp_pure); the relay part (relay_dict_of: each relay dict reproduces the configured "
+    "sub-hints unchanged and in order) is written (spec function relay_dict_of) but NOT registered: the clause and the matching "
+    "loop invariant stayed undecided (z3+cvc5 unknown) in the time available; registered for the relay part is only the count",
+    "not under contract: Common.set_transit_key, Common._get_transit_key as a function of its own (inlined in connect), "
+    "Common._stop_listening (test helper), InboundConnectionFactory._proto_failed, Connection.__init__ as a function of its own "
+    "(inlined in buildProtocol); this version has no Common._get_relay_hints / _start_listener (the listener is started inside "
+    "_get_direct_hints)",
 ]
